@@ -272,7 +272,7 @@ def evaluate(i, scn):
 
 
 def main():
-    a, rep, replay = parse(PROP)
+    a, rep, replay = parse(PROP, aged=True)
     rep.assumptions = ["both presentations are fitted with the real classes and compared label by label; complex results up to a unit phase per mode",
                        "order-dependent methods are exempt from the sample permutation only, as the statement says"]
     if replay is not None and replay["scenario"].get("kind") == "scenario":
